@@ -1,6 +1,7 @@
 package props
 
 import (
+	"fmt"
 	"go/ast"
 	"go/token"
 	"go/types"
@@ -73,15 +74,16 @@ func runC01(c *core.Ctx) {
 	c.Rule("C01.carry", "A3: the level given to event() is the value given to addEvent; the time given to event() is the value given to addEvent and triggered; the duration is the result of duration() called after triggered; the id is renderID's result; the `ok` atom tests that same level value")
 	c.Rule("C01.eventlit", "A7: AlertNode.event maps level→State.Level, t→State.Time, d→State.Duration, id→State.ID, !NoRecoveriesFlag→Data.Recoverable")
 	c.Rule("C01.book", "A2/A3: addEvent computes `changed` from the history element at the pre-increment index and the new level, before the index store, and runs updateExpired after both and after updateFlapping's input is in place")
-	c.Rule("C01.writers", "A6: lastTriggered/firstTriggered are stored only by triggered; history/idx/changed/expired/flapping only by addEvent, updateFlapping, updateExpired (and the constructor literal)")
+	c.Rule("C01.writers", "A6: lastTriggered is stored only by triggered, firstTriggered by triggered and addEvent (F78: the event that leaves OK starts the incident even when it is withheld); history/idx/changed/expired/flapping only by addEvent, updateFlapping, updateExpired (and the constructor literal)")
 	c.Rule("C01.seed", "A1: restoreEventState calls addEvent then triggered exactly when the restored level ≠ OK")
 	c.Rule("C01.level", "A1: determineLevel returns the upward search result if found; else the current level if a reset expression is configured, evaluated without error and did not pass; else the downward search result if found; else OK")
 	c.Rule("C01.match", "A1: findFirstMatchLevel reports a match only for a level whose expression evaluated without error to true, and returns that same level")
 	c.Rule("C01.batchlevel", "A1: in BufferedBatch every point of the batch is compared with both the running lowest level (started at Critical) and the running highest level (started at OK, or no point yet): on every path through one iteration the lowest level is stored iff the point's level is lower, the highest level and point iff it is higher or none was seen; neither comparison may be skipped")
-	c.Rule("C01.episode", "A1: triggered stores lastTriggered on every path and firstTriggered exactly under a `== OK` test of a history element")
+	c.Rule("C01.episode", "A1: triggered stores lastTriggered on every path and firstTriggered exactly under a `== OK` test of a history element; addEvent stores firstTriggered = t exactly when the level at the not yet advanced idx is OK and the new level is not (F78)")
 	c.Rule("C01.fanout", "A1/A3: handleEvent: inhibited ⇒ no Collect; otherwise Collect once per configured topic kind, each with event.Topic set to that topic just before; a Collect error does not prevent the other Collect")
 
 	c.Rule("C01.pools", "A7: in newAlertNode, for every level index the scope pool stored next to a compiled expression is built from the reference variables of that same expression (levels↔scopePools, levelResets↔lrScopePools): a pool built from another expression leaves variables undefined and silently disables the condition")
+	c.Rule("C01.flapwalk", "A8: F77: for every ring size 2…7, newest slot idx and step i, the index expressions of percentChange's loop (evaluated by the checker over that finite domain) select the pair of neighbours (idx+2+i, idx+1+i) mod l: every neighbouring pair once, oldest first, never (oldest, newest)")
 	c.Rule("C01.flap", "A1: updateFlapping leaves the flapping state only below the low threshold and enters it only above the high threshold (documented hysteresis); no other store to flapping")
 
 	pkg := c.P.Pkg("")
@@ -313,7 +315,7 @@ func runC01(c *core.Ctx) {
 	{
 		allowed := map[string]map[string]bool{
 			"lastTriggered":  {"triggered": true},
-			"firstTriggered": {"triggered": true},
+			"firstTriggered": {"triggered": true, "addEvent": true},
 			"history":        {"addEvent": true},
 			"idx":            {"addEvent": true},
 			"changed":        {"addEvent": true},
@@ -592,6 +594,10 @@ func runC01(c *core.Ctx) {
 			c.Ok("C01.episode", "alertState.triggered#previous-slot")
 		}
 	}
+
+	// ---- C01.episode, addEvent side (F78) and the flapping walk (F77)
+	c01EpisodeAddEvent(c, info)
+	c01FlapWalk(c, info)
 
 	// ---- C01.batchlevel
 	c01BatchLevel(c, info)
@@ -1160,4 +1166,206 @@ func c01BatchLevel(c *core.Ctx, info *types.Info) {
 	if good {
 		c.Ok("C01.batchlevel", "alertState.BufferedBatch#iteration")
 	}
+}
+
+// c01EpisodeAddEvent: F78. The incident starts with the event that leaves OK, whether or not that event is sent (flapping and
+// stateChangesOnly withhold events): addEvent stores firstTriggered = t exactly when the level before this event (history at the
+// not yet advanced idx) is OK and the new level is not.
+func c01EpisodeAddEvent(c *core.Ctx, info *types.Info) {
+	fn := c.Need("C01.episode", "", "alertState", "addEvent")
+	if fn == nil {
+		return
+	}
+	t, lvl := an.ParamName(fn.Decl.Type, 0), an.ParamName(fn.Decl.Type, 1)
+	eng := &an.Engine{Prog: c.P,
+		TrackStore: func(lhs ast.Expr, key string) string {
+			switch {
+			case an.FieldSel(info, lhs, "alertState", "firstTriggered"):
+				return "firstTriggered"
+			case an.FieldSel(info, lhs, "alertState", "idx"):
+				return "idx"
+			}
+			return ""
+		},
+		Classify: func(a an.Atom) (string, bool) {
+			isOK := func(x ast.Expr) bool { return x != nil && an.ConstNamed(info, x, "alert", "OK") }
+			if a.LX != nil && isOK(a.RX) {
+				if ix, ok := ast.Unparen(a.LX).(*ast.IndexExpr); ok && an.FieldSel(info, ix.X, "alertState", "history") && a.Op == token.EQL {
+					if strings.Contains(a.L, ".idx#") {
+						return "other-slot", false // read after idx was advanced: that is the new level
+					}
+					return "prevok", false
+				}
+				if a.L == lvl {
+					switch a.Op {
+					case token.NEQ:
+						return "nonok", false
+					case token.EQL:
+						return "nonok", true
+					}
+				}
+			}
+			return "", false
+		}}
+	paths, err := eng.Run(fn)
+	if err != nil {
+		c.Undecided("C01.episode", "alertState.addEvent#leaves-ok", fn.Decl.Pos(), "%v", err)
+		return
+	}
+	an.CheckTable(c, "C01.episode", "alertState.addEvent#leaves-ok", paths, an.Table{Atoms: []string{"prevok", "nonok"},
+		Outcome: func(p *an.Path) string {
+			for i, e := range p.Events {
+				if e.Kind == "store" && e.Name == "firstTriggered" {
+					after := false
+					for _, b := range p.Events[:i] {
+						if b.Kind == "store" && b.Name == "idx" {
+							after = true
+						}
+					}
+					if after {
+						return "firstTriggered stored after idx moved"
+					}
+					return "firstTriggered=" + e.Args[0]
+				}
+			}
+			return ""
+		},
+		Expect: func(a map[string]bool) string {
+			if a["prevok"] && a["nonok"] {
+				return "firstTriggered=" + t
+			}
+			return ""
+		}})
+}
+
+// c01FlapWalk: F77. percentChange walks the history ring comparing neighbours. With idx the newest slot, the pairs are
+// (k, k-1) for k = idx+2 … idx+l (mod l): every pair of neighbours once, oldest first (the weight grows with i), and never the
+// pair (oldest, newest), which are not neighbours in time. The index expression is evaluated by the checker for every ring size
+// 2…7, every idx and every i — a finite enumeration of one integer expression, not a run of the code.
+func c01FlapWalk(c *core.Ctx, info *types.Info) {
+	fn := c.Need("C01.flapwalk", "", "alertState", "percentChange")
+	if fn == nil {
+		return
+	}
+	var loop *ast.ForStmt
+	ast.Inspect(fn.Decl.Body, func(nd ast.Node) bool {
+		if fs, ok := nd.(*ast.ForStmt); ok && loop == nil {
+			loop = fs
+		}
+		return true
+	})
+	if loop == nil || loop.Init == nil {
+		c.Undecided("C01.flapwalk", "alertState.percentChange#walk", fn.Decl.Pos(), "the loop over the history was not found")
+		return
+	}
+	// the loop variable, the two index locals (defined in the body, in order), the ring length local
+	var iv types.Object
+	if as, ok := loop.Init.(*ast.AssignStmt); ok && len(as.Lhs) == 1 {
+		if id, ok := as.Lhs[0].(*ast.Ident); ok {
+			iv = info.Defs[id]
+		}
+	}
+	var defs []*ast.AssignStmt
+	for _, st := range loop.Body.List {
+		if as, ok := st.(*ast.AssignStmt); ok && as.Tok == token.DEFINE && len(as.Lhs) == 1 && len(as.Rhs) == 1 {
+			defs = append(defs, as)
+		}
+	}
+	if iv == nil || len(defs) < 2 {
+		c.Undecided("C01.flapwalk", "alertState.percentChange#walk", loop.Pos(), "loop variable or the two index definitions not found")
+		return
+	}
+	cur, prev := info.Defs[defs[0].Lhs[0].(*ast.Ident)], info.Defs[defs[1].Lhs[0].(*ast.Ident)]
+	// which of the two is compared as history[x] != history[y]
+	var eval func(e ast.Expr, env map[types.Object]int, idx, l int) (int, bool)
+	eval = func(e ast.Expr, env map[types.Object]int, idx, l int) (int, bool) {
+		switch x := ast.Unparen(e).(type) {
+		case *ast.BasicLit:
+			if tv, ok := info.Types[x]; ok && tv.Value != nil {
+				var n int
+				if _, err := fmt.Sscan(tv.Value.String(), &n); err == nil {
+					return n, true
+				}
+			}
+		case *ast.Ident:
+			if v, ok := env[info.Uses[x]]; ok {
+				return v, true
+			}
+		case *ast.SelectorExpr:
+			if an.FieldSel(info, x, "alertState", "idx") {
+				return idx, true
+			}
+		case *ast.CallExpr:
+			if core.IsBuiltin(info, x, "len") && len(x.Args) == 1 && an.FieldSel(info, x.Args[0], "alertState", "history") {
+				return l, true
+			}
+		case *ast.BinaryExpr:
+			a, ok1 := eval(x.X, env, idx, l)
+			b, ok2 := eval(x.Y, env, idx, l)
+			if !ok1 || !ok2 {
+				return 0, false
+			}
+			switch x.Op {
+			case token.ADD:
+				return a + b, true
+			case token.SUB:
+				return a - b, true
+			case token.MUL:
+				return a * b, true
+			case token.REM:
+				if b == 0 {
+					return 0, false
+				}
+				return a % b, true
+			}
+		}
+		return 0, false
+	}
+	// the ring length local (l := len(a.history)) if any
+	var lv types.Object
+	ast.Inspect(fn.Decl.Body, func(nd ast.Node) bool {
+		if as, ok := nd.(*ast.AssignStmt); ok && as.Tok == token.DEFINE && len(as.Lhs) == 1 && len(as.Rhs) == 1 {
+			if call, ok := as.Rhs[0].(*ast.CallExpr); ok && core.IsBuiltin(info, call, "len") {
+				lv = info.Defs[as.Lhs[0].(*ast.Ident)]
+			}
+		}
+		return true
+	})
+	bad := ""
+	for l := 2; l <= 7 && bad == ""; l++ {
+		for idx := 0; idx < l && bad == ""; idx++ {
+			var got [][2]int
+			for i := 0; i < l-1; i++ {
+				env := map[types.Object]int{iv: i}
+				if lv != nil {
+					env[lv] = l
+				}
+				cv, ok := eval(defs[0].Rhs[0], env, idx, l)
+				if !ok {
+					c.Undecided("C01.flapwalk", "alertState.percentChange#walk", defs[0].Pos(), "the index expression %s is not integer arithmetic over the loop variable, idx and the ring length", types.ExprString(defs[0].Rhs[0]))
+					return
+				}
+				env[cur] = cv
+				pv, ok := eval(defs[1].Rhs[0], env, idx, l)
+				if !ok {
+					c.Undecided("C01.flapwalk", "alertState.percentChange#walk", defs[1].Pos(), "the previous-index expression %s is not integer arithmetic", types.ExprString(defs[1].Rhs[0]))
+					return
+				}
+				if pv < 0 {
+					pv = l - 1 // the wrap-around branch of the body
+				}
+				got = append(got, [2]int{cv, pv})
+			}
+			for i, g := range got {
+				wc := (idx + 2 + i) % l
+				wp := (wc - 1 + l) % l
+				if g[0] != wc || g[1] != wp {
+					bad = fmt.Sprintf("ring of %d with the newest event at slot %d: step %d compares slots (%d, %d), the pairs of neighbours from oldest to newest are (%d, %d) at that step", l, idx, i, g[0], g[1], wc, wp)
+					break
+				}
+			}
+		}
+	}
+	_ = prev
+	c.Check(bad == "", "C01.flapwalk", "alertState.percentChange#walk", defs[0].Pos(), "the walk over the alert history does not compare each event with the one before it, oldest pair first (%s): it compares the oldest event with the newest — not a state change — and skips a real pair, so one change is counted twice: crit(v>80).flapping(0.25,0.5).history(4) on 50 50 85 85 85 85 computes 58%% and withholds the first three CRITICAL events as flapping", bad)
 }
